@@ -300,6 +300,38 @@ static void mx_case(uint64_t idx, void *ctx)
     mc_nontrivial();
     mc_outcome(idx);
 }
+/* ---- (a) a vector that mixes strings and URLs (a URL is a string: the two compare by text, in either direction); (b) an iteration over one vector
+ * that is interrupted by a removal from ANOTHER vector of the same class: it still delivers every element */
+static void mv_desc(uint64_t idx, void *ctx, char *b, size_t n) { (void) ctx; if (idx / 3) snprintf(b, n, "%s vector of 5: iterate 2, remove and delete an element of a second vector of the class, iterate on: 5 elements in order", CN[idx % 3]); else snprintf(b, n, "%s vector mixing str and url elements inserted as url m, str a, url z, str k, str m2, url b: sorted by text, every one found", CN[idx % 3]); }
+static void mv_case(uint64_t idx, void *ctx)
+{
+    (void) ctx; CLS = (int) (idx % 3);
+    if (idx / 3 == 0) {
+        const char *shape = "elements of classes str and url together"; mc_set_shape(shape);
+        static const char *TX[6] = { "http://m.org/", "http://a.org/", "http://z.org/", "http://k.org/", "http://m2.org/", "http://b.org/" }; static const int ISURL[6] = { 1, 0, 1, 0, 0, 1 };
+        spif_vector_t v = new_vec(); spif_obj_t e[6];
+        for (int i = 0; i < 6; i++) { e[i] = ISURL[i] ? SPIF_OBJ(spif_url_new_from_ptr((spif_charptr_t) TX[i])) : S_(TX[i]); if (!SPIF_VECTOR_INSERT(v, e[i])) FAIL(site("insert"), "model:return", shape, "insert returned FALSE"); }
+        spif_obj_t *a = SPIF_VECTOR_TO_ARRAY(v);
+        if (!a) FAIL(site("to_array"), "model:return", shape, "to_array returned NULL");
+        else { for (int i = 0; i + 1 < 6; i++) if (strcmp((char *) SPIF_STR(a[i])->s, (char *) SPIF_STR(a[i + 1])->s) > 0) { FAIL(site("insert"), "model:order", shape, "\"%s\" stands before \"%s\"", (char *) SPIF_STR(a[i])->s, (char *) SPIF_STR(a[i + 1])->s); break; } free(a); }
+        for (int i = 0; i < 6; i++) { spif_obj_t p = S_(TX[i]); spif_obj_t f = SPIF_VECTOR_FIND(v, p); if (f != e[i]) FAIL(site("find"), "model:return", shape, "find(\"%s\") %s", TX[i], f ? "returned another element" : "missed a stored element"); if (!SPIF_VECTOR_CONTAINS(v, p)) FAIL(site("contains"), "model:return", shape, "contains(\"%s\") is FALSE", TX[i]); SPIF_OBJ_DEL(p); }
+        SPIF_VECTOR_DEL(v);
+    } else {
+        const char *shape = "iteration interrupted by work on another vector"; mc_set_shape(shape);
+        spif_vector_t v = new_vec(), w = new_vec(); static const char *TV[5] = { "a", "b", "c", "d", "e" };
+        for (int i = 0; i < 5; i++) SPIF_VECTOR_INSERT(v, S_(TV[i])); SPIF_VECTOR_INSERT(w, S_("x")); SPIF_VECTOR_INSERT(w, S_("y"));
+        spif_iterator_t it = SPIF_VECTOR_ITERATOR(v); int k = 0;
+        while (it && k < 2 && SPIF_ITERATOR_HAS_NEXT(it)) { spif_obj_t g = SPIF_ITERATOR_NEXT(it); if (!is_str(g, TV[k])) FAIL(site("iterator"), "model:order", shape, "element %d is wrong", k); k++; }
+        { spif_obj_t p = S_("x"); spif_obj_t r = SPIF_VECTOR_REMOVE(w, p); if (r) SPIF_OBJ_DEL(r); SPIF_OBJ_DEL(p); SPIF_VECTOR_INSERT(w, S_("z")); }
+        { spif_vector_t u = new_vec(); SPIF_VECTOR_INSERT(u, S_("q")); SPIF_VECTOR_DEL(u); }
+        while (it && k < 7 && SPIF_ITERATOR_HAS_NEXT(it)) { spif_obj_t g = SPIF_ITERATOR_NEXT(it); if (k < 5 && !is_str(g, TV[k])) FAIL(site("iterator"), "model:order", shape, "element %d is wrong after the other vector changed", k); k++; }
+        if (k != 5) FAIL(site("iterator"), "model:count", shape, "the iteration delivered %d of 5 elements (another vector of the class changed meanwhile)", k);
+        if (it) SPIF_ITERATOR_DEL(it);
+        SPIF_VECTOR_DEL(v); SPIF_VECTOR_DEL(w);
+    }
+    mc_nontrivial();
+    mc_outcome(idx);
+}
 /* ---- a very long vector (400000 elements, built in the order that is cheap for the class), then one insert above the maximum and one in the middle,
  * a find of the last element and a copy: anything that uses stack in proportion to the position shows here; run in the unoptimised plain build */
 static void huge_desc(uint64_t idx, void *ctx, char *b, size_t n) { (void) ctx; snprintf(b, n, "%s vector of 400000 elements: insert above the maximum and in the middle, find the last, dup, count, delete both", CN[1 + idx % 2]); }
@@ -342,6 +374,7 @@ int main(int argc, char **argv)
         mc_e1_run(&sys, (int) mc_arg_int("depth", 40));
     }
     if (!only) mc_e2_level("element_classes", 1, 6, mx_case, mx_desc, NULL);
+    if (!only) mc_e2_level("mixed_classes_and_neighbours", 1, 6, mv_case, mv_desc, NULL);
     if (!only) mc_e2_level("large", 4097, (uint64_t) 3 * 3 * NBIGN, big_case, big_desc, NULL);
     return mc_finish();
 }
